@@ -22,7 +22,7 @@ def parseMgrOp (line : String) : Option Op :=
   | _ => none
 
 def Mgr.Out.fmt : Mgr.Out → String
-  | .created c => s!"ok id={c.id} {fmtLayer c.cfg}"
+  | .created c => s!"ok id={c.id} {fmtLayer c.cfg} cc=1"
   | .exists_ => "err"
   | .got none => "nil"
   | .got (some c) => s!"id={c.id}"
@@ -48,7 +48,7 @@ def suiteManager (kvs : List (String × String)) (lines0 : List (String × Strin
         match op with
         | .create n cs =>
           if created.contains n then "err" :: specs created rest
-          else s!"ok id={created.length} {fmtLayer (specCfg ctors cs)}" :: specs (created ++ [n]) rest
+          else s!"ok id={created.length} {fmtLayer (specCfg ctors cs)} cc=1" :: specs (created ++ [n]) rest
         | .get n => (match created.idxOf? n with | some i => s!"id={i}" | none => "nil") :: specs created rest
         | .all => ("[" ++ ",".intercalate ((List.range created.length).map toString) ++ "]") :: specs created rest
         | .stats n =>
